@@ -11,7 +11,7 @@
 (* Demanded (statement of C22): every entry point yields ONE group (identical        *)
 (* posterior whatever the schedule / map order), and that group is the Gray-Paper    *)
 (* layer's unique result (AccRounds!GP): recorded order, balances, t', u.            *)
-EXTENDS AccRoundsFn, Json
+EXTENDS AccRoundsFn, Bytes, Json
 CONSTANTS TraceFile, ResultFile, KnownDeviations
 VARIABLES l, devs, bad
 Trace == ndJsonDeserialize(TraceFile)
@@ -21,6 +21,13 @@ Proj(store) == [k \in 1..Len(store) |-> [kind |-> store[k].kind, from |-> store[
 Keys(store) == [k \in 1..Len(store) |-> store[k].i]
 ProjT(tt) == [k \in 1..Len(tt) |-> [from |-> tt[k].from, to |-> tt[k].to, amt |-> tt[k].amt, tag |-> tt[k].tag]]
 
+\* theta' = b in ascending (service, output) order; the driver logs the first 8 octets of an output: [count, tag, 0..]
+Y8(y) == <<y.n % 256, y.tag, 0, 0, 0, 0, 0, 0>>
+ThetaOk(th, gp) ==
+  /\ {[id |-> th[k].id, h |-> th[k].h] : k \in 1..Len(th)} = {[id |-> p.id, h |-> Y8(p.y)] : p \in gp.b}
+  /\ Len(th) = Cardinality(gp.b)
+  /\ \A k \in 1..(Len(th) - 1) : th[k].id < th[k + 1].id \/ (th[k].id = th[k + 1].id /\ CmpLex(th[k].h, th[k + 1].h) < 0)
+
 StfWhy(e, scn, gp) ==
   IF Len(e.stf) # 1 THEN {"nondeterministic_posterior"}
   ELSE LET o == e.stf[1].obs
@@ -28,7 +35,8 @@ StfWhy(e, scn, gp) ==
           ELSE (IF {a.id : a \in Ran(o.acc)} # Ids(scn) \/ Len(o.acc) # Cardinality(Ids(scn)) THEN {"service_set_differs"} ELSE
                 (IF \E a \in Ran(o.acc) : Keys(a.store) # [k \in 1..Len(a.store) |-> k - 1] \/ Proj(a.store) # gp.e.store[a.id]
                    THEN {"recorded_order_differs_from_gray_paper"} ELSE {})
-                \cup (IF \E a \in Ran(o.acc) : a.spent # gp.e.spent[a.id] THEN {"balances_differ_from_gray_paper"} ELSE {}))
+                \cup (IF \E a \in Ran(o.acc) : a.spent # gp.e.spent[a.id] THEN {"balances_differ_from_gray_paper"} ELSE {})
+                \cup (IF ~ThetaOk(o.theta, gp) THEN {"accumulation_outputs_differ_from_gray_paper"} ELSE {}))
 ParWhy(e, scn) ==
   IF Len(e.par) # 1 THEN {"nondeterministic_parallel_output"}
   ELSE LET o == e.par[1].obs
